@@ -30,6 +30,9 @@ pub enum SOp {
     Unwatch { key: String },
     UnwatchAll,
     Disconnect,
+    /// the session's connection handler dies without any clean-up (what a panicking connection thread leaves
+    /// behind): its registrations stay, its receiving end is gone -- the other subscribers must not notice
+    Vanish,
     /// let the writers make progress
     Pause,
     /// the session selects the database it already uses again (same credentials): nothing about its
@@ -138,7 +141,7 @@ fn gen(rng: &mut Rng) -> Program {
                 _ => {
                     watching.clear();
                     gone = true;
-                    ops.push(SOp::Disconnect);
+                    ops.push(if rng.chance(1, 3) { SOp::Vanish } else { SOp::Disconnect });
                 }
             }
         }
@@ -348,7 +351,7 @@ fn execute(prog: Program, wire: bool) -> Outcome {
                         SOp::UnwatchAll => {
                             take(c.request_lossy("unwatch-all", 2_000).0, &nts);
                         }
-                        SOp::Disconnect => {
+                        SOp::Disconnect | SOp::Vanish => {
                             // what was delivered up to now is read first (the handler polls its channel
                             // every 2 ms and may be descheduled): the session then goes away
                             take(c.request_lossy("get zz", 2_000).0, &nts);
@@ -359,9 +362,9 @@ fn execute(prog: Program, wire: bool) -> Outcome {
                             take(c.request_lossy("use-db d tok", 2_000).0, &nts);
                         }
                     }
-                    let ret = if matches!(op, SOp::Disconnect) { u64::MAX } else { seq.fetch_add(1, Ordering::SeqCst) };
+                    let ret = if matches!(op, SOp::Disconnect | SOp::Vanish) { u64::MAX } else { seq.fetch_add(1, Ordering::SeqCst) };
                     recs.lock().unwrap().push(SRec { op: op.clone(), invoke, ret });
-                    if matches!(op, SOp::Disconnect) {
+                    if matches!(op, SOp::Disconnect | SOp::Vanish) {
                         return;
                     }
                 }
@@ -389,6 +392,14 @@ fn execute(prog: Program, wire: bool) -> Outcome {
                             vec![]
                         }
                         SOp::Reselect => s.exec("use-db d tok").msgs,
+                        SOp::Vanish => {
+                            // what it had received so far is kept; then the receiving end goes away with no clean-up
+                            let got = s.drain();
+                            let dead = std::mem::replace(&mut s, Session::new(&dbs));
+                            nundb_verif_rt::kernel::with(|k| k.fault("subscriber_vanished"));
+                            drop(dead);
+                            got
+                        }
                     };
                     let ret = seq.fetch_add(1, Ordering::SeqCst);
                     recs.lock().unwrap().push(SRec { op: op.clone(), invoke, ret });
@@ -454,7 +465,7 @@ fn intervals(recs: &[SRec], key: &str) -> Vec<(u64, u64, u64, u64)> {
                     v.push((a, b, r.invoke, r.ret));
                 }
             }
-            SOp::UnwatchAll | SOp::Disconnect => {
+            SOp::UnwatchAll | SOp::Disconnect | SOp::Vanish => {
                 if let Some((a, b)) = open.take() {
                     v.push((a, b, r.invoke, r.ret));
                 }
@@ -480,7 +491,7 @@ fn multiplicity(recs: &[SRec], key: &str) -> usize {
                 max = max.max(cur);
             }
             SOp::Unwatch { key: k } if k == key => cur = 0,
-            SOp::UnwatchAll | SOp::Disconnect => cur = 0,
+            SOp::UnwatchAll | SOp::Disconnect | SOp::Vanish => cur = 0,
             _ => {}
         }
     }
@@ -522,11 +533,12 @@ fn check(out: &Outcome) -> (Vec<Violation>, bool) {
             let mult = multiplicity(recs, key);
             let unsub_kind = |ret: u64| -> String {
                 for r in recs {
-                    if r.ret == ret || (ret == u64::MAX && matches!(r.op, SOp::Disconnect)) {
+                    if r.ret == ret || (ret == u64::MAX && matches!(r.op, SOp::Disconnect | SOp::Vanish)) {
                         return match r.op {
                             SOp::Unwatch { .. } => "unwatch",
                             SOp::UnwatchAll => "unwatch-all",
                             SOp::Disconnect => "disconnect",
+                            SOp::Vanish => "vanish",
                             _ => "watch",
                         }
                         .to_string();
@@ -546,6 +558,7 @@ fn check(out: &Outcome) -> (Vec<Violation>, bool) {
                     SOp::Unwatch { .. } => "unwatch",
                     SOp::UnwatchAll => "unwatch-all",
                     SOp::Disconnect => "disconnect",
+                    SOp::Vanish => "vanish",
                     SOp::Pause | SOp::Reselect => "",
                 })
                 .filter(|s| !s.is_empty())
